@@ -327,6 +327,331 @@ class Sess:
         self.classes.append("free-race")
 
 
+# ----------------------------------------------------------------------------- puppet-peer family
+#
+# One production transport (client or server role) against a raw puppet peer: the puppet answers nothing by itself, so the
+# harness decides WHEN a local open is answered (opens stay unanswered while other opens, closes and counter wrap-arounds
+# happen), and it can send what a confused peer sends: OPEN_CONFIRMATION / OPEN_FAILURE naming ids of established channels
+# or ids nobody asked for.  The oracle does not look into the transport's channel table at all: it keeps its own list of the
+# Channel OBJECTS that were handed out and not closed (get_id(), closed) plus the ids of the unanswered opens as seen on
+# the wire, and it watches where data goes: bytes the puppet addresses to the id of live channel A must come out of A.
+
+SENTINEL_TYPE = 193
+
+
+class PupSess:
+    MAX_LIVE = 6
+    MAX_PENDING = 3
+
+    def __init__(self, ctx, role, ctr):
+        from vlib import refssh as R
+
+        self.R = R
+        self.ctx = ctx
+        self.role = role
+        self.ops = [{"op": "init", "fam": "pup", "role": role, "ctr": ctr}]
+        if role == "client":
+            self.link, tc, ts, _ = peers.connected_pair(client_cls=peers.VTransport, server_cls=peers.Puppet)
+            self.tested, self.puppet = tc, ts
+        else:
+            self.link, tc, ts, _ = peers.connected_pair(client_cls=peers.Puppet, server_cls=peers.VTransport)
+            self.tested, self.puppet = ts, tc
+        self.puppet.raw()
+        self.seen = 0
+        self.live = []  # dict(ch=Channel, id=local id, pid=puppet id)
+        self.pending = []  # dict(th, res, id)
+        self.next_pid = 500
+        self.salt = 0
+        self.nontrivial = False
+        self.classes = []
+        self.dead = False
+        self.hot = False
+        with self.tested.lock:
+            self.tested._channel_counter = ctr
+        if role == "client":
+            th, res = self.thread(lambda: self.tested.request_port_forward("", 0))
+            self.wait_msg(lambda e: e[1] == 80, "tcpip-forward request")
+            self.puppet.send_raw_seq(peers.m_request_success(R.u32(4242)))
+            th.join(TO)
+            if "v" not in res:
+                raise peers.core.HarnessError("C23 harness: request_port_forward failed %r" % (res.get("e"),))
+        self.sync()
+
+    # ------------------------------------------------------------------ plumbing
+    def close(self):
+        peers.shutdown(self.tested, self.puppet)
+        for p in self.pending:
+            p["th"].join(TO)
+        self.live = []
+        self.pending = []
+
+    def fail(self, clause, bucket, detail):
+        self.dead = True
+        self.ctx.violation(clause, bucket, {"ops": self.ops}, detail)
+        raise Stop()
+
+    def thread(self, fn):
+        res = {}
+
+        def body():
+            try:
+                res["v"] = fn()
+            except Exception as e:
+                res["e"] = e
+
+        th = threading.Thread(target=body, daemon=True)
+        th.start()
+        return th, res
+
+    def wait_msg(self, pred, what):
+        start = self.seen
+
+        def got(lg):
+            for i in range(start, len(lg)):
+                if pred(lg[i]):
+                    return i + 1
+            return None
+
+        r = self.puppet.wait_log(got, timeout=TO)
+        if not r:
+            raise peers.core.HarnessError("C23 harness: tested side never sent %s" % what)
+        return self.puppet.log[r - 1]
+
+    def sync(self):
+        s = self.puppet.send_raw_seq(bytes([SENTINEL_TYPE]) + b"verif")
+        echo = self.R.u32(s)
+        start = self.seen
+
+        def got(lg):
+            for i in range(start, len(lg)):
+                if lg[i][1] == 3 and lg[i][2] == echo:
+                    return i + 1
+            return None
+
+        r = self.puppet.wait_log(got, timeout=TO)
+        if not r:
+            raise peers.core.HarnessError("C23 harness: no sentinel echo (active=%s exc=%r)" % (self.tested.is_active(), self.tested.get_exception()))
+        new = list(self.puppet.log)[start : r - 1]
+        self.seen = r
+        return new
+
+    def ids_in_use(self):
+        return [c["id"] for c in self.live] + [p["id"] for p in self.pending]
+
+    def new_id(self, cid, how):
+        if not isinstance(cid, int) or not (0 <= cid < MAXID):
+            self.fail("id-in-24-bit-space", "pup:%s" % how, "tested transport used id %r" % (cid,))
+        live = [c["id"] for c in self.live]
+        pend = [p["id"] for p in self.pending]
+        if cid in live:
+            self.fail("id-unique-among-live", "pup:%s:id-of-established-channel" % how, "id %d assigned while established channels %r (unanswered opens %r) are in use" % (cid, sorted(live), sorted(pend)))
+        if cid in pend:
+            self.fail("id-unique-among-live", "pup:%s:id-of-unanswered-open" % how, "id %d assigned while it belongs to an open still waiting for the peer's answer (unanswered %r, established %r)" % (cid, sorted(pend), sorted(live)))
+        if len(live) + len(pend) >= 3:
+            self.nontrivial = True
+            self.classes.append("pup:alloc-with>=3-in-use")
+        if pend:
+            self.classes.append("pup:alloc-while-an-open-is-unanswered")
+        if self.hot:
+            self.nontrivial = True
+            self.classes.append("pup:alloc-after-wrap-or-jump")
+            if pend:
+                self.classes.append("pup:alloc-after-wrap-or-jump-while-an-open-is-unanswered")
+            self.hot = False
+
+    def invariant(self, how):
+        """The harness' own live OBJECTS: distinct ids, still open."""
+        for c in list(self.live):
+            if c["ch"].closed:
+                # closed by the transport itself (not by an operation of this history): its id is free again
+                self.live.remove(c)
+                self.classes.append("pup:live-channel-closed-by-transport")
+        seen = {}
+        for c in self.live:
+            i = c["ch"].get_id()
+            if i != c["id"]:
+                self.fail("id-unique-among-live", "pup:%s:id-of-live-object-changed" % how, "channel handed out with id %d now reports %r" % (c["id"], i))
+            if i in seen:
+                self.fail("id-unique-among-live", "pup:%s:two-live-objects-one-id" % how, "two open Channel objects report id %d" % i)
+            seen[i] = c
+
+    def route(self, c, how):
+        """Bytes addressed to live channel c's id come out of c and of nobody else."""
+        self.salt = (self.salt + 1) % 250
+        data = bytes([self.salt + 1, c["id"] & 0xFF, 0x5A]) * 3
+        self.puppet.send_raw_seq(peers.m_channel_data(c["id"], data))
+        self.sync()
+        got = {}
+        for o in self.live:
+            o["ch"].settimeout(0.0)
+            if o["ch"].recv_ready():
+                got[id(o)] = o["ch"].recv(4096)
+        mine = got.pop(id(c), b"")
+        if got:
+            other = [o for o in self.live if id(o) in got][0]
+            self.fail("id-unique-among-live", "pup:%s:data-for-one-channel-delivered-to-another" % how, "bytes sent to id %d (channel handed out as %r) came out of %r (id %d)" % (c["id"], c["ch"], other["ch"], other["id"]))
+        if mine != data:
+            self.fail("id-unique-among-live", "pup:%s:live-channel-no-longer-reachable-under-its-id" % how, "bytes sent to id %d did not come out of the open channel that owns it (got %r)" % (c["id"], mine))
+        self.classes.append("pup:data-routed")
+
+    # ------------------------------------------------------------------ operations
+    def runnable(self, op):
+        k = op["op"]
+        if k == "start":
+            return len(self.pending) < self.MAX_PENDING and len(self.live) + len(self.pending) < self.MAX_LIVE
+        if k == "answer":
+            return bool(self.pending)
+        if k == "popen":
+            return len(self.live) + len(self.pending) < self.MAX_LIVE
+        if k in ("close", "pclose", "data"):
+            return bool(self.live)
+        if k == "stray":
+            return True
+        return True
+
+    def do(self, op):
+        if self.dead or not self.runnable(op):
+            return
+        self.ops.append(op)
+        getattr(self, "op_" + op["op"])(op)
+        self.invariant(op["op"])
+
+    def mark_hot(self):
+        if self.tested._channel_counter in self.ids_in_use():
+            self.hot = True
+
+    def op_start(self, op):
+        self.mark_hot()
+        before = self.tested._channel_counter
+        if self.role == "client":
+            th, res = self.thread(lambda: self.tested.open_session(timeout=TO))
+        else:
+            th, res = self.thread(lambda: self.tested.open_channel("forwarded-tcpip", ("", 4242), ("10.1.1.1", 40000), timeout=TO))
+        e = self.wait_msg(lambda e: e[1] == 90, "CHANNEL_OPEN")
+        rd = self.R.Reader(e[2])
+        rd.string()
+        cid = rd.u32()
+        if cid < before:
+            self.hot = True
+        self.new_id(cid, "local-open")
+        self.pending.append(dict(th=th, res=res, id=cid))
+        self.classes.append("pup:local-open-started")
+        self.sync()
+
+    def op_answer(self, op):
+        p = self.pending.pop(op["idx"] % len(self.pending))
+        if op["ok"]:
+            pid = self.next_pid
+            self.next_pid += 1
+            self.puppet.send_raw_seq(peers.m_channel_open_confirm(p["id"], pid))
+        else:
+            self.puppet.send_raw_seq(peers.m_channel_open_failure(p["id"]))
+        p["th"].join(TO)
+        if p["th"].is_alive():
+            raise peers.core.HarnessError("C23 harness: answered open did not return")
+        self.sync()
+        if op["ok"]:
+            ch = p["res"].get("v")
+            if ch is None:
+                self.fail("id-unique-among-live", "pup:confirmed-open-lost", "open with id %d was confirmed by the peer but open_channel raised %r (somebody else holds its id?)" % (p["id"], p["res"].get("e")))
+            if ch.get_id() != p["id"]:
+                self.fail("id-unique-among-live", "pup:confirmed-open-other-id", "CHANNEL_OPEN carried id %d, the Channel returned reports %r" % (p["id"], ch.get_id()))
+            c = dict(ch=ch, id=p["id"], pid=pid)
+            self.live.append(c)
+            self.classes.append("pup:open-confirmed-late" if op.get("late") else "pup:open-confirmed")
+            self.route(c, "after-confirm")
+        else:
+            self.classes.append("pup:open-refused")
+
+    def op_popen(self, op):
+        self.mark_hot()
+        before = self.tested._channel_counter
+        pid = self.next_pid
+        self.next_pid += 1
+        R = self.R
+        if self.role == "client":
+            rest = R.string(b"") + R.u32(4242) + R.string(b"10.9.8.7") + R.u32(4711)
+            self.puppet.send_raw_seq(peers.m_channel_open(b"forwarded-tcpip", pid, rest=rest))
+        else:
+            self.puppet.send_raw_seq(peers.m_channel_open(b"session", pid))
+        new = self.sync()
+        rep = [e for e in new if e[1] in (91, 92) and e[2][:4] == R.u32(pid)]
+        if len(rep) != 1 or rep[0][1] != 91:
+            raise peers.core.HarnessError("C23 harness: peer open not confirmed: %r" % ([(e[1], e[2][:12].hex()) for e in new],))
+        rd = R.Reader(rep[0][2])
+        rd.u32()
+        cid = rd.u32()
+        if cid < before:
+            self.hot = True
+        self.new_id(cid, "peer-open")
+        ch = self.tested.accept(TO)
+        if ch is None:
+            raise peers.core.HarnessError("C23 harness: accept() returned nothing")
+        if ch.get_id() != cid:
+            self.fail("id-unique-among-live", "pup:peer-open-other-id", "OPEN_CONFIRMATION carried id %d, the accepted Channel reports %r" % (cid, ch.get_id()))
+        c = dict(ch=ch, id=cid, pid=pid)
+        self.live.append(c)
+        self.classes.append("pup:peer-open")
+        self.route(c, "after-peer-open")
+
+    def op_close(self, op):
+        c = self.live.pop(op["idx"] % len(self.live))
+        c["ch"].close()
+        self.wait_msg(lambda e: e[1] == 97 and e[2][:4] == self.R.u32(c["pid"]), "CHANNEL_CLOSE")
+        self.puppet.send_raw_seq(peers.m_channel_close(c["id"]))
+        self.sync()
+        self.classes.append("pup:close-local-first")
+
+    def op_pclose(self, op):
+        c = self.live.pop(op["idx"] % len(self.live))
+        self.puppet.send_raw_seq(peers.m_channel_close(c["id"]))
+        self.wait_msg(lambda e: e[1] == 97 and e[2][:4] == self.R.u32(c["pid"]), "CHANNEL_CLOSE reply")
+        self.sync()
+        self.classes.append("pup:close-peer-first")
+
+    def op_data(self, op):
+        self.route(self.live[op["idx"] % len(self.live)], "data")
+
+    def op_jump(self, op):
+        how = op["to"]
+        live = sorted(c["id"] for c in self.live)
+        pend = sorted(p["id"] for p in self.pending)
+        pool = pend if how.endswith("pending") else live
+        if how not in ("max", "max-1") and not pool:
+            how = "max"
+        if how == "max":
+            v = MAXID - 1
+        elif how == "max-1":
+            v = MAXID - 2
+        else:
+            v = pool[op["pick"] % len(pool)]
+            if how.startswith("below"):
+                v = (v - 1) % MAXID
+        with self.tested.lock:
+            self.tested._channel_counter = v
+        self.hot = True
+        self.classes.append("pup:jump:" + how)
+
+    def op_stray(self, op):
+        """What a confused peer sends: OPEN_CONFIRMATION / OPEN_FAILURE for the id of an ESTABLISHED channel or for an id nobody
+        is opening.  (For an unanswered open these messages are the answer: rule "answer".)"""
+        if op["target"] == "live" and self.live:
+            c = self.live[op["idx"] % len(self.live)]
+            cid, pid, what = c["id"], c["pid"], "established"
+        else:
+            used = set(self.ids_in_use())
+            cid = next(i for i in ((self.tested._channel_counter + op["idx"]) % MAXID, 77777, 77778, 77779, 77780, 77781, 77782, 77783) if i not in used)
+            pid, what, c = 499, "unused", None
+        if op["kind"] == "confirm":
+            self.puppet.send_raw_seq(peers.m_channel_open_confirm(cid, pid))
+        else:
+            self.puppet.send_raw_seq(peers.m_channel_open_failure(cid))
+        self.sync()
+        self.classes.append("pup:stray-open-%s-for-%s-id" % (op["kind"], what))
+        if c is not None:
+            self.route(c, "after-stray-open-%s" % op["kind"])
+
+
 def run(ctx):
     ctx.set_budget(85, 780)
     ctx.assume("counter jump rule: moving _channel_counter stands for the 2^24 opens it would take to get there; every value is reachable with the modelled channels still open")
@@ -393,24 +718,92 @@ def run(ctx):
             finally:
                 s.close()
 
-    try:
-        ctx.explore_machine(Machine, ctx.scale(70, 700), steps=40)
-    except Exception as e:
-        # Once the safety-net budget is exhausted the machine turns into a no-op, which hypothesis reports as
-        # flaky data generation when it happens while a failing history is being shrunk/replayed. That says
-        # nothing about paramiko: keep the (unshrunk) failure if there is one, else the run is inconclusive.
-        import hypothesis.errors as HE
+    class PupMachine(RuleBasedStateMachine):
+        def __init__(self):
+            RuleBasedStateMachine.__init__(self)
+            self.s = None
 
-        if not (ctx.budget_hit and isinstance(e, HE.Flaky)):
-            raise
-        ctx.inconc("budget-hit-while-shrinking")
-        if ctx._last_fail is not None and ctx._last_fail[0] not in ctx.unknown and ctx._last_fail[0] not in ctx.known_hits:
-            ctx._record_unknown(*ctx._last_fail)
+        @initialize(role=st.sampled_from(["client", "server"]), ctr=st.sampled_from(PRESETS))
+        def init(self, role, ctr):
+            if ctx.out_of_time():
+                return
+            self.s = PupSess(ctx, role, ctr)
+
+        def _do(self, op):
+            if self.s is None or self.s.dead:
+                return
+            try:
+                self.s.do(op)
+            except Stop:
+                pass
+
+        @rule()
+        def start_local_open(self):
+            self._do({"op": "start"})
+
+        @rule()
+        def start_local_open_(self):  # twice as likely as the other rules: unanswered opens are the point of this family
+            self._do({"op": "start"})
+
+        @rule(idx=st.integers(0, 3), ok=st.sampled_from([True, True, True, False]))
+        def answer(self, idx, ok):
+            self._do({"op": "answer", "idx": idx, "ok": ok})
+
+        @rule()
+        def peer_open(self):
+            self._do({"op": "popen"})
+
+        @rule(idx=st.integers(0, 7))
+        def close(self, idx):
+            self._do({"op": "close", "idx": idx})
+
+        @rule(idx=st.integers(0, 7))
+        def peer_close(self, idx):
+            self._do({"op": "pclose", "idx": idx})
+
+        @rule(idx=st.integers(0, 7))
+        def data(self, idx):
+            self._do({"op": "data", "idx": idx})
+
+        @rule(to=st.sampled_from(["max", "max-1", "live", "below-live", "pending", "pending", "below-pending"]), pick=st.integers(0, 7))
+        def jump(self, to, pick):
+            self._do({"op": "jump", "to": to, "pick": pick})
+
+        @rule(kind=st.sampled_from(["confirm", "failure", "failure"]), which=st.sampled_from(["live", "live", "unused"]), idx=st.integers(0, 7))
+        def stray(self, kind, which, idx):
+            self._do({"op": "stray", "kind": kind, "target": which, "idx": idx})
+
+        def teardown(self):
+            s = self.s
+            if s is None:
+                return
+            try:
+                ctx.case({"ops": s.ops}, s.nontrivial and not s.dead, sorted(set(s.classes)))
+            finally:
+                s.close()
+
+    for M, n in ((Machine, ctx.scale(50, 600)), (PupMachine, ctx.scale(60, 600))):
+        try:
+            ctx.explore_machine(M, n, steps=40)
+        except Exception as e:
+            # Once the safety-net budget is exhausted the machine turns into a no-op, which hypothesis reports as
+            # flaky data generation when it happens while a failing history is being shrunk/replayed. That says
+            # nothing about paramiko: keep the (unshrunk) failure if there is one, else the run is inconclusive.
+            import hypothesis.errors as HE
+
+            if not (ctx.budget_hit and isinstance(e, HE.Flaky)):
+                raise
+            ctx.inconc("budget-hit-while-shrinking")
+            if ctx._last_fail is not None and ctx._last_fail[0] not in ctx.unknown and ctx._last_fail[0] not in ctx.known_hits:
+                ctx._record_unknown(*ctx._last_fail)
 
 
 def replay(ctx, case):
     ops = case["ops"]
-    s = Sess(ctx, ops[0]["cc"], ops[0]["sc"])
+    if ops[0].get("fam") == "pup":
+        s = PupSess(ctx, ops[0]["role"], ops[0]["ctr"])
+    else:
+        s = Sess(ctx, ops[0]["cc"], ops[0]["sc"])
     try:
         for op in ops[1:]:
             try:
